@@ -73,7 +73,7 @@ Proof.
   unfold as_bytes in Ex, Ey. destruct kx; try discriminate. destruct ky; try discriminate.
   injection Ex as <-. injection Ey as <-.
   apply verify_or_irr_ok in H. rewrite ALG_ES256_val in *. rewrite CRV_P256_val in *. rewrite <- Ek in H.
-  constructor; [|exact Eag].
+  constructor; [exact G| |exact Eag].
   exists d, c. repeat split; auto.
   - exists x, y. exact Ek.
   - exists alg, kcrv, b, b0. repeat split; auto.
@@ -113,7 +113,9 @@ Theorem verify_tpm_sound O now st ad cdj pk roots :
   verify_tpm O now st ad cdj pk roots = Ok tt -> TpmOk O now st ad cdj pk roots.
 Proof.
   unfold verify_tpm. intros H.
-  do 5 (let G := fresh "G" in apply bind_need_ok in H as [G H]).
+  apply bind_need_ok in H as [M1 H]. apply bind_need_ok in H as [M2 H]. apply bind_need_ok in H as [M3 H].
+  apply bind_need_ok in H as [M4 H]. apply bind_need_ok in H as [M5 H].
+  apply negb_unset in M1, M2, M3, M4, M5.
   apply bind_need_ok in H as [Gv H]. apply cbor_eq_text_ok in Gv.
   apply bind_ok in H as [x5c [Ex H]].
   apply bind_ok in H as [u [Ech H]]. destruct u. apply chain_or_irr_ok in Ech.
@@ -129,7 +131,7 @@ Proof.
   apply bind_need_ok in H as [Gn H]. apply bytes_eqb_eq in Gn.
   apply bind_ok in H as [c [Ec H]].
   apply bind_ok in H as [u [Esig H]]. destruct u. apply verify_or_irr_ok in Esig.
-  constructor; [exact Gv|].
+  constructor; [exact Gv|auto|].
   exists x5c, pa_raw, ci_raw, pa, dk, ci, c, ph.
   repeat split; auto.
   (* key equality *)
@@ -157,7 +159,7 @@ Proof.
   apply bind_need_ok in H as [Gn H]. apply bytes_eqb_eq in Gn.
   apply bind_ok in H as [dk [Edk H]]. apply bind_ok in H as [pkk [Epk H]].
   apply need_ok in H. apply bytes_eqb_eq in H.
-  constructor. exists x5c, c, v, dk, pkk. repeat split; auto.
+  constructor; [apply negb_unset, G|]. exists x5c, c, v, dk, pkk. repeat split; auto.
 Qed.
 
 (* ---------------- android-key ---------------- *)
@@ -177,7 +179,8 @@ Theorem verify_android_key_sound O now st ad cdj pk roots builtin :
   verify_android_key O now st ad cdj pk roots builtin = Ok tt -> AndroidKeyOk O now st ad cdj pk roots builtin.
 Proof.
   unfold verify_android_key. intros H.
-  do 3 (let G := fresh "G" in apply bind_need_ok in H as [G H]).
+  apply bind_need_ok in H as [M1 H]. apply bind_need_ok in H as [M2 H]. apply bind_need_ok in H as [M3 H].
+  apply negb_unset in M1, M2, M3.
   apply bind_ok in H as [x5c [Ex H]].
   apply bind_ok in H as [rootc [Er H]].
   apply bind_ok in H as [u [Ech H]]. destruct u. apply chain_or_irr_ok in Ech.
@@ -190,7 +193,7 @@ Proof.
   apply bind_need_ok in H as [Gc H]. apply bytes_eqb_eq in Gc.
   apply bind_need_ok in H as [Gsw H]. apply bind_need_ok in H as [Gtee H].
   apply bind_need_ok in H as [Go H]. apply need_ok in H.
-  constructor. exists x5c, rootc, c, dk, pkk, kd. repeat split; auto.
+  constructor; [auto|]. exists x5c, rootc, c, dk, pkk, kd. repeat split; auto.
   - destruct (kd_sw_all_apps kd); [discriminate|reflexivity].
   - destruct (kd_tee_all_apps kd); [discriminate|reflexivity].
   - destruct (kd_tee_origin kd) as [[| |]|]; try discriminate. reflexivity.
@@ -204,7 +207,7 @@ Proof.
   unfold verify_safetynet. intros H.
   apply bind_need_ok in H as [G H]. apply bind_need_ok in H as [G0 H].
   destruct (fld (st_response st)) as [|resp| | | | | |] eqn:Er; try discriminate.
-  destruct (negb (is_ascii resp)); [discriminate|].
+  destruct (is_ascii resp) eqn:Easc; cbn [negb] in H; [|discriminate].
   destruct (split_dot resp []) as [|p0 [|p1 [|p2 [|p3 r]]]] eqn:Es; try discriminate.
   apply bind_ok in H as [hb [Ehb H]]. apply bind_ok in H as [hj [Ehj H]].
   apply bind_ok in H as [pb [Epb H]]. apply bind_ok in H as [pj [Epj H]].
@@ -220,7 +223,8 @@ Proof.
   apply bind_ok in H as [sg [Esg H]].
   apply bind_need_ok in H as [Ga H].
   apply verify_or_irr_ok in H. rewrite ALG_RS256_val in H.
-  constructor. exists resp, p0, p1, p2, hb, hj, pb, pj, x5c, c, sg, ts, cn, cns.
+  apply negb_unset in G, G0.
+  constructor; [auto|]. exists resp, p0, p1, p2, hb, hj, pb, pj, x5c_txt, x5c, c, sg, ts, cn, cns.
   destruct x5c as [|d x5c']; [discriminate|]. cbn [hd_bytes].
   repeat split; auto; try discriminate.
   - apply AuthProofs.jstr_is_eq in Gn. exact Gn.
